@@ -186,9 +186,9 @@ def judge(ctx, s, r):
 
 def run(ctx: core.Ctx):
     if ctx.quick:
-        states = scriptgen.tlc_programs(ctx, "Script_n3.cfg", "Script_sim.cfg", sim_num=8000, sim_depth=16)
+        states = scriptgen.tlc_programs(ctx, ["Script_n3.cfg", "Script_loops4t.cfg"], "Script_sim.cfg", sim_num=8000, sim_depth=16)
     else:
-        states = scriptgen.tlc_programs(ctx, "Script_n4.cfg", "Script_sim.cfg", sim_num=60000, sim_depth=18)
+        states = scriptgen.tlc_programs(ctx, ["Script_n4.cfg", "Script_loops4t.cfg", "Script_iffor4t.cfg"], "Script_sim.cfg", sim_num=60000, sim_depth=18)
     vac = core.run_tlc("Script", "Script_vacuity.cfg", timeout=900)
     if vac.ok:
         raise core.MachineryError("vacuity: no accepted program with an if inside a for loop is reachable")
